@@ -126,7 +126,8 @@ verus_unit("proofserdev", "proofserdev", ["C12", "C03"], [
     "theorem_proof_roundtrip (specification level: for every proof whose number of trace-query sets equals its context's number of trace segments, decoding what write_into appended returns the same proof and leaves exactly the following bytes - relative to the component round trips, which are hypotheses here and obligations of the Kani / Verus units of C12 for the concrete component types)"])
 
 
-verus_unit("containerv", "containerv", ["C12", "C03"], [
+verus_unit("containerv", "containerv", ["C12", "C03", "C15"], [
+    "<FriProofLayer as Serializable>::write_into / <FriProofLayer as Deserializable>::read_from (two byte vectors behind 32-bit prefixes, an empty value vector is refused; round trip for every layer with at least one value byte)",
     "<Queries as Serializable>::write_into / <Queries as Deserializable>::read_from (two byte vectors behind 32-bit length prefixes, every content and length below 2^32)",
     "<OodFrame as Serializable>::write_into / <OodFrame as Deserializable>::read_from (three byte vectors behind 16-bit length prefixes, every content and length below 2^16)",
     "<Commitments as Serializable>::write_into / <Commitments as Deserializable>::read_from (one byte vector behind a 16-bit prefix; the writer's assertion is the documented pre-condition)",
